@@ -50,7 +50,7 @@ def run(chk):
         'counts, order, flags (exc.*), and the contract of the next '
         'successful call (exc.next). distinct_nontrivial = distinct (kind, '
         'history position) of injected calls that raised')
-    chk.mc('MC_Dyn', 'MC_Dyn_protected.cfg')
+    chk.mc('MC_Dyn', 'MC_Dyn_fail.cfg')      # a decorated call that creates nodes and then raises, at every trigger position
     tmp = os.path.join(chk.dir, 'tmp')
     n = tlcrun.NCPU
     per = 6 if q else 300
